@@ -368,6 +368,21 @@ Definition builtin_names : list string :=
    "long_double"; "unsigned_int"; "unsigned_long"; "long_long"; "unsigned_long_long"; "char"; "wchar_t"; "char16_t"; "char32_t";
    "int8_t"; "int16_t"; "int32_t"; "int64_t"; "uint8_t"; "uint16_t"; "uint32_t"; "uint64_t"].
 
+(* names the real engine registers (bootstrap, prelude, standard library) that the model does not implement: a program using one is
+   outside the modelled subset, not a program with an unknown identifier *)
+Definition unmodelled_names : list string :=
+  ["Dynamic_Object"; "bind"; "for_each"; "map"; "filter"; "foldl"; "reduce"; "sum"; "product"; "zip"; "zip_with"; "take"; "drop"; "take_while"; "drop_while";
+   "concat"; "join"; "reverse"; "retro"; "range"; "generate_range"; "collate"; "min"; "max"; "even"; "odd"; "any_of"; "all_of"; "contains"; "find";
+   "Vector"; "Map"; "Pair"; "string"; "bool"; "Function"; "type_name"; "type_match"; "is_type"; "call_exists"; "function_exists"; "get_functions";
+   "get_objects"; "from_json"; "to_json"; "parse"; "use"; "eval_file"; "dump_system"; "dump_object"; "is_var_undef"; "is_var_null"; "is_var_const";
+   "is_var_reference"; "is_var_pointer"; "is_var_return_value"; "reset_var_return_value"; "class_name"; "get_type_info"; "get_attr"; "get_attrs";
+   "has_attr"; "set_explicit"; "is_explicit"; "get_type_name"; "method_missing"; "insert_at"; "erase_at"; "push_front"; "pop_front"; "clear"; "at";
+   "first"; "second"; "count"; "substr"; "c_str"; "data"; "rfind"; "find_first_of"; "find_last_of"; "find_first_not_of"; "find_last_not_of";
+   "ltrim"; "rtrim"; "trim"; "to_int"; "to_double"; "to_float"; "to_char"; "to_long"; "to_unsigned_int"; "to_size_t"; "internal_to_string";
+   "async"; "future"; "runtime_error"; "out_of_range"; "logic_error"; "exception"; "eval_error"; "arithmetic_error"; "assert_true"; "assert_false";
+   "assert_equal"; "assert_not_equal"; "exit"; "set_print_handler"; "call"; "get_arity"; "get_annotation"; "get_contained_functions"; "has_guard";
+   "get_guard"; "has_parse_tree"; "get_parse_tree"; "clone"; "swap"; "resize"; "reserve"; "capacity"; "max_size"; "assign"].
+
 (* ---------------------------------------------------------------- Id lookup (Dispatch_Engine::get_object) *)
 Definition hint_key (n : ast) : string :=
   dec_of_z (l_line (a_loc n)) ++ ":" ++ dec_of_z (l_col (a_loc n)) ++ ":" ++ a_text n.
@@ -389,6 +404,7 @@ Definition lookup_nonlocal (name : string) : prog dloc :=
       match fs with
       | Some _ => new_value (OFun (FNamed name)) true false
       | None => if existsb (String.eqb name) builtin_names then new_value (OFun (FNamed name)) true false
+                else if existsb (String.eqb name) unmodelled_names then unsup ("engine function " ++ name)
                 else eval_error ("Can not find object: " ++ name)
       end
   end.
@@ -398,7 +414,8 @@ Definition lookup_by_name (c : cfg) (n : ast) : prog dloc :=
   r <- Prim (PFindLocal name) ;;
   match r with
   | Some (dist, slot, d) =>
-      (if use_hints c then Prim (PSetHint (hint_key n) (hint_local dist slot)) else Ret tt) ;;; Ret d
+      (* the position is remembered only when it fits the hint's fields (12 bits of distance, 16 bits of slot) *)
+      (if use_hints c && Nat.leb dist 4095 && Nat.leb slot 65535 then Prim (PSetHint (hint_key n) (hint_local dist slot)) else Ret tt) ;;; Ret d
   | None =>
       (if use_hints c then Prim (PSetHint (hint_key n) hint_nonlocal) else Ret tt) ;;; lookup_nonlocal name
   end.
